@@ -68,7 +68,8 @@ PostClause(e, b, accepted) ==
      ELSE IF "C04" \in Focus /\ (\E i \in 1..Len(p.index) :
                  LET id == p.index[i][1] IN p.index[i][2] # ChainOf(blocks', id))
           THEN "C04:height_index_not_ancestors_and_self"
-     ELSE IF "C04" \in Focus /\ (\/ {p.forks[i][1] : i \in 1..Len(p.forks)} # Childless(blocks')
+     ELSE IF "C04" \in Focus /\ p.forks_defined
+                              /\ (\/ {p.forks[i][1] : i \in 1..Len(p.forks)} # Childless(blocks')
                                   \/ Len(p.forks) # Cardinality(Childless(blocks'))
                                   \/ \E i \in 1..Len(p.forks) :
                                         p.forks[i][1] \in DOMAIN blocks' /\ head' \in DOMAIN blocks'
